@@ -448,4 +448,58 @@ example : ∃ c, deleteCookie 1700000000 [107] [47] [] false false (strCps "lax"
     line c = strCps "k=\"\"; expires=Tue, 14 Nov 2023 22:13:20 GMT; max-age=0; path=/; samesite=lax" :=
   ⟨_, rfl, by decide⟩
 
+/-- **C16.4f** whatever else is done to the response - cookies of the same or other names set before or
+after, earlier deletions - every call emits exactly its own cookie, in call order; in particular the line of
+a `delete_cookie` call is present and is the expired cookie of `delete_is_expired`. -/
+theorem seq_emits_every_call (now : Int) (ops : List COp) (cs : List CookieRec)
+    (h : applyCOps now ops = some cs) :
+    cs.length = ops.length ∧
+      ∀ (i : Nat) (o : COp), ops[i]? = some o → (cs[i]?) = o.record now ∧ (cs[i]?).isSome := by
+  induction ops generalizing cs with
+  | nil =>
+    simp only [applyCOps, Option.some.injEq] at h
+    subst h
+    exact ⟨rfl, fun i o ho => by simp at ho⟩
+  | cons o os ih =>
+    simp only [applyCOps] at h
+    cases hr : o.record now with
+    | none => simp [hr] at h
+    | some c =>
+      cases hrest : applyCOps now os with
+      | none => simp [hr, hrest] at h
+      | some cs' =>
+        simp only [hr, hrest, Option.map_some, Option.some.injEq] at h
+        subst h
+        obtain ⟨hl, hi⟩ := ih cs' hrest
+        refine ⟨by simp [hl], fun i o' ho' => ?_⟩
+        cases i with
+        | zero =>
+          simp only [List.getElem?_cons_zero, Option.some.injEq] at ho'
+          subst ho'
+          simp [hr]
+        | succ j =>
+          simp only [List.getElem?_cons_succ] at ho' ⊢
+          exact hi j o' ho'
+
+/-- a deletion inside any call sequence: its line is there and it is the expired cookie -/
+theorem seq_delete_is_expired (now : Int) (ops : List COp) (cs : List CookieRec) (i : Nat) (n p : Str)
+    (h : applyCOps now ops = some cs) (hi : ops[i]? = some (.del n p))
+    (hn : minTimestamp ≤ now ∧ now ≤ maxTimestamp) :
+    ∃ c, cs[i]? = some c ∧ c.name = n ∧ c.value = [] ∧ c.path = p ∧
+      attrs c = (Gen.Cookie.expiresPrefix ++ httpDate now) :: (Gen.Cookie.maxAgePrefix ++ [48]) ::
+        attrs { c with expires := none, maxAge := -1 } ∧
+      parseHttpDate (httpDate now) = some now := by
+  obtain ⟨c, hc, h1, h2, h3, h4⟩ :=
+    delete_is_expired now n p [] (strCps Gen.Cookie.defaultSamesite) false false hn
+  have := (seq_emits_every_call now ops cs h).2 i _ hi
+  refine ⟨c, by rw [this.1]; exact hc, h1, h2, ?_, h3, h4⟩
+  have hp : deleteCookie now n p [] false false (strCps Gen.Cookie.defaultSamesite) = some c := hc
+  simp only [deleteCookie, setCookie] at hp
+  split at hp <;> first | (simp only [Option.some.injEq] at hp; subst hp; rfl) | (simp at hp)
+
+example : applyCOps 1700000000 [.set [107] [118] [47], .del [107] [47], .del [107] [47]] =
+    some [⟨[107], [118], none, -1, [], [47], false, false, strCps "lax"⟩,
+          ⟨[107], [], some 1700000000, 0, [], [47], false, false, strCps "lax"⟩,
+          ⟨[107], [], some 1700000000, 0, [], [47], false, false, strCps "lax"⟩] := by decide
+
 end Baize.Cookie
